@@ -90,7 +90,7 @@ def ownerOf (s : RegState) (id : Nat) : Option Addr :=
 
 /-- heights/ids retained for registration `id`, ascending -/
 def retained (s : RegState) (id : Nat) : List Nat :=
-  ((s.recs.filter (fun e => e.1.1 = id)).map (fun e => e.1.2)).mergeSort (· ≤ ·)
+  isort ((s.recs.filter (fun e => e.1.1 = id)).map (fun e => e.1.2))
 
 def minOr0 : List Nat → Nat
   | [] => 0
